@@ -54,6 +54,19 @@ pub fn streams(thorough: bool) -> Vec<(Vec<V>, &'static str)> {
 			"nested-strings",
 		));
 	}
+	// outputs larger than the parser's raw buffer with multi-byte characters across its edges
+	for boundary in [8192usize, 16384, 24576] {
+		for ch in ["é", "€", "😀"] {
+			for align in 0..ch.len() {
+				let mut s = "p".repeat(boundary - 60 + align);
+				for _ in 0..40 {
+					s.push_str(ch);
+				}
+				s.push_str(&"q".repeat(20_000));
+				out.push((vec![V::map(vec![("k", V::Str(s))])], "buffer-straddle"));
+			}
+		}
+	}
 	// sizes around MessagePack header widths
 	for len in [0usize, 1, 15, 16, 17, 255, 256, 65535, 65536] {
 		if len > 300 && !thorough && len != 65536 && len != 65535 {
